@@ -26,6 +26,7 @@ Definition fcan (rec : Z -> Z -> Z * Z) (elts : list (list Z)) : list Z * list Z
 
 (* what a finished object satisfies, and what makes prepare() a no-op on it *)
 Record prepared (c : cfg) (p : raw) : Prop := {
+  P_verts : map prep_vertex (vertices p) = vertices p;
   P_edges : filter (evalid (zlen (vertices p))) (map kedge (edges p)) = edges p;
   P_faces : fst c = true -> forall C f, In C (cells p) -> In f (cfc_cell_faces C) ->
             In (keyify f) (map keyify (faces p));
@@ -149,10 +150,12 @@ Proof.
       apply zlen_zero_nil in Y1, Y2. subst el ad. auto.
     - inversion H5; subst r1. rewrite E1, E2. split; [left; exact R | exact Wcf]. }
   split; [|split; [apply Pcc | apply Pcf]].
+  assert (HN : zlen (vertices r1) = zlen (vertices r)) by (rewrite Hv; unfold zlen; now rewrite map_length).
   constructor.
-  - rewrite Hv, Hes. apply normal_edges_fix.
+  - rewrite Hv, map_map. apply map_ext. intros v. apply prep_vertex_idem.
+  - rewrite HN, Hes. apply normal_edges_fix.
   - intros Hc C f HC Hf. rewrite Hcs in HC. eapply Hcomplete; eauto.
-  - intros Hc f s Hf Hs Hval. rewrite Hv in Hval. eapply sides_present; eauto.
+  - intros Hc f s Hf Hs Hval. rewrite HN in Hval. eapply sides_present; eauto.
   - intros Hc Hne. rewrite Hat, stage2_eattrs. unfold completes. rewrite <- Hfs, Hc.
     assert (Hn : nonempty (faces r1) = true) by (revert Hne; destruct (faces r1); [congruence | reflexivity]).
     rewrite Hn. cbn [andb]. rewrite !amap_lookup. unfold with_hard, hard_guarded.
@@ -180,6 +183,7 @@ Lemma rewrap_prepared c k r : top_dim r <= k -> 0 <= k <= 3 -> prepared c r -> p
 Proof.
   intros Hd Hk P. destruct (rewrap_main k r Hd Hk) as (He & Hf & Hc & Hv).
   constructor.
+  - rewrite Hv. apply P.
   - rewrite Hv, He. apply P.
   - intros Hfc C f. rewrite Hc, Hf. now apply P.
   - intros Hsc f s. rewrite Hf, Hv, He. now apply P.
@@ -282,7 +286,7 @@ Proof.
   destruct (edges_thm c p p2 Hprep) as (Hes & _). fold N in Hes. pose proof (P_edges c p P) as PE. fold N in PE. rewrite AE, app_nil_r, PE in Hes.
   destruct (gcf_fields _ _ Hp2) as (_ & _ & _ & _ & G5 & G6 & _ & G8 & G9).
   destruct FC as [FC1 FC2]. destruct CC as [CC1 CC2].
-  unfold raw_equiv. rewrite Hv, Hes, Hfs, AF, app_nil_r, Hcs, G5, G6, G8, G9, K1, K2.
+  unfold raw_equiv. rewrite Hv, (P_verts c p P), Hes, Hfs, AF, app_nil_r, Hcs, G5, G6, G8, G9, K1, K2.
   repeat split; auto.
   (* attributes *)
   rewrite (prepare_eattrs c p p2 Hprep), stage2_eattrs.
